@@ -2,6 +2,7 @@ package cert
 
 //nolint:gosec
 import (
+	"bytes"
 	"crypto/ecdsa"
 	"crypto/elliptic"
 	"crypto/rand"
@@ -9,6 +10,7 @@ import (
 	"crypto/tls"
 	"crypto/x509"
 	"crypto/x509/pkix"
+	"encoding/asn1"
 	"errors"
 	"fmt"
 	"math/big"
@@ -88,6 +90,22 @@ func SkiFromCertificate(cert *x509.Certificate) (string, error) {
 	subjectKeyId := cert.SubjectKeyId
 	if len(subjectKeyId) != 20 {
 		return "", errors.New("Client certificate does not provide a SKI")
+	}
+
+	// SHIP 12.2: the SKI is required to be created according to RFC 3280 4.2.1.2,
+	// which is the SHA-1 hash of the public key. Verify this, as otherwise a
+	// certificate could contain the SKI of another device and assume its identity
+	var publicKeyInfo struct {
+		Algorithm pkix.AlgorithmIdentifier
+		PublicKey asn1.BitString
+	}
+	if _, err := asn1.Unmarshal(cert.RawSubjectPublicKeyInfo, &publicKeyInfo); err != nil {
+		return "", err
+	}
+	// #nosec G401
+	expectedSki := sha1.Sum(publicKeyInfo.PublicKey.RightAlign())
+	if !bytes.Equal(expectedSki[:], subjectKeyId) {
+		return "", errors.New("Client certificate SKI does not match its public key")
 	}
 
 	return fmt.Sprintf("%0x", subjectKeyId), nil
